@@ -426,6 +426,21 @@ func (p *c09) Run(c *verifsim.Chooser, st *Stats, render bool) *Outcome {
 	}
 	// O2: an already-expired context prevents execution altogether
 	if plan == 2 {
+		// … and keeps doing so: a second call on the same evaluator
+		nTrace := len(h.Trace)
+		var r2 Result
+		under(ctx, func() {
+			if useRun {
+				r2 = doExecute(e, nil)
+			} else {
+				r2 = doRun(e, nil)
+			}
+		})
+		if !r2.Failed && r2.Escaped == nil && tw.ticks != 0 {
+			o.violate("C09/ran-when-expired", family+"/second-call", "the first call under an expired context was refused, a second call on the same evaluator (other front end) returned %s", r2.String())
+		} else if len(h.Trace) != nTrace {
+			o.violate("C09/ran-when-expired", family+"/second-call", "a second call under the still-expired context called host functions: %v", h.Trace[nTrace:])
+		}
 		if len(h.Trace) != 0 {
 			o.violate("C09/ran-when-expired", family+"/trace", "host functions were called under an expired context: %v", h.Trace)
 		}
